@@ -1,10 +1,12 @@
 #!/bin/bash
-# usage: run_thorough.sh <seed> <props...>
+# usage: run_thorough.sh <seed> <props...>   (development aid; evidence goes to a scratch directory and the thorough copies
+# are taken over into evidence/thorough/, so that evidence/CNN.json stays the one of the last quick run)
 cd /verif
 seed=$1; shift
 for p in "$@"; do
   s=$(date +%s)
-  VERIF_SEED=$seed python3 run/check.py $p --tier thorough > /var/tmp/thorough_$p.out 2>&1
+  VERIF_EVIDENCE_DIR=/var/tmp/ev-thorough VERIF_SEED=$seed python3 run/check.py $p --tier thorough > /var/tmp/thorough_$p.out 2>&1
   rc=$?
   echo "$p seed=$seed rc=$rc wall=$(( $(date +%s) - s ))s $(grep -c '^VIOLATION' /var/tmp/thorough_$p.out) violations" >> /var/tmp/thorough.log
+  [ $rc -eq 0 ] && cp /var/tmp/ev-thorough/thorough/$p.json /verif/evidence/thorough/$p.json
 done
